@@ -435,6 +435,8 @@ class Respondent(httping.Parsent):
                     leaderParser.close()
                     break
                 (yield None)
+            # new generator for next status line since closed above
+            lineParser = httping.parseLine(raw=self.msg, eols=(CRLF, LF), kind="status line")
 
         self.code = self.status = status
         self.reason = reason.strip()
